@@ -1318,6 +1318,840 @@ theorem pongStep_lok {L : List (Cast α)} {A : IpVote.Svc α} (h : SLOk L A) (th
     · intro v' hv'; rw [hv] at hv'; exact h v' hv'
     · intro v' hv'; rw [hv] at hv'; exact requireMore_lok h p.tClear p.sock.isV6 v' hv'
 
+/-! ### The shape of a PONG step that changes the record -/
+
+/-- `pongStep` moved the IPv4 socket of the record to `a`: the vote of this PONG was counted
+(eligible voter) and was an IPv4 vote; `a` is a clear majority (at the clock reading of
+`majority()`) of the IPv4 table the step leaves, all of whose entries are unexpired; the record
+had another IPv4 socket before; `seq` grew by one; exactly `SocketUpdated(a)` was emitted. -/
+structure Moved4 (thr : Nat → Nat) (A : IpVote.Svc α) (p : Pong α) (a : α) : Prop where
+  counted : counted A p = true
+  fam : ∃ x, p.sock = .v4 x
+  votes : ∃ v', (pongStep thr A p).1.votes = some v' ∧
+    ClearMajority thr v'.minimum (countOf p.tMaj v'.v4) a ∧ ∀ en, en ∈ v'.v4 → p.tMaj < en.expiry
+  old : A.enr.ip4 ≠ some a
+  enr : (pongStep thr A p).1.enr = { A.enr with ip4 := some a, seq := A.enr.seq + 1 }
+  evs : (pongStep thr A p).2 = [Ev.socketUpdated (.v4 a)]
+
+/-- Same for the IPv6 socket. -/
+structure Moved6 (thr : Nat → Nat) (A : IpVote.Svc α) (p : Pong α) (a : α) : Prop where
+  counted : counted A p = true
+  fam : ∃ x, p.sock = .v6 x
+  votes : ∃ v', (pongStep thr A p).1.votes = some v' ∧
+    ClearMajority thr v'.minimum (countOf p.tMaj v'.v6) a ∧ ∀ en, en ∈ v'.v6 → p.tMaj < en.expiry
+  old : A.enr.ip6 ≠ some a
+  enr : (pongStep thr A p).1.enr = { A.enr with ip6 := some a, seq := A.enr.seq + 1 }
+  evs : (pongStep thr A p).2 = [Ev.socketUpdated (.v6 a)]
+
+theorem majority_unexpired (thr : Nat → Nat) (v : IpVote α) (now : Nat)
+    (sh4 sh6 : List (Entry α) → List (Entry α)) :
+    (∀ e, e ∈ (v.majority thr now sh4 sh6).1.v4 → now < e.expiry) ∧
+    (∀ e, e ∈ (v.majority thr now sh4 sh6).1.v6 → now < e.expiry) := by
+  unfold IpVote.majority
+  simp only []
+  rw [mostFrequent_updated, mostFrequent_updated]
+  constructor <;> intro e he <;> simpa using (List.mem_filter.1 he).2
+
+/-- The three outcomes of a PONG, with everything C17 says about a change. -/
+theorem pongStep_shape (thr : Nat → Nat) (A : IpVote.Svc α) (p : Pong α) :
+    ((pongStep thr A p).1.enr = A.enr ∧ (pongStep thr A p).2 = []) ∨
+    (∃ a, Moved4 thr A p a) ∨ (∃ a, Moved6 thr A p a) := by
+  by_cases hc : counted A p = true
+  · obtain ⟨v, hv, hstep⟩ := pongStep_counted thr A p hc
+    have he := requireMore_enr A p.tClear p.sock.isV6
+    obtain ⟨hvotes, h | ⟨x, a, hs, hm, hne, henr, hev⟩ | ⟨x, a, hs, hm, hne, henr, hev⟩⟩ :=
+      countVote_full thr (requireMore A p.tClear p.sock.isV6).1 v p
+    · left; rw [hstep, ← he]; exact h
+    · right; left
+      rw [he] at hne henr
+      refine ⟨a, hc, ⟨x, hs⟩, ⟨_, by rw [hstep]; exact hvotes, ?_, ?_⟩, hne, by rw [hstep]; exact henr,
+        by rw [hstep]; exact hev⟩
+      · exact majority_post4 thr _ p.tMaj p.sh4 p.sh6 a hm
+      · exact (majority_unexpired thr _ p.tMaj p.sh4 p.sh6).1
+    · right; right
+      rw [he] at hne henr
+      refine ⟨a, hc, ⟨x, hs⟩, ⟨_, by rw [hstep]; exact hvotes, ?_, ?_⟩, hne, by rw [hstep]; exact henr,
+        by rw [hstep]; exact hev⟩
+      · exact majority_post6 thr _ p.tMaj p.sh4 p.sh6 a hm
+      · exact (majority_unexpired thr _ p.tMaj p.sh4 p.sh6).2
+  · left
+    obtain ⟨h1, h2, _⟩ := pongStep_uncounted thr A p (by simpa using hc)
+    exact ⟨h1, h2⟩
+
+/-- The voters behind a tally: the voters of the unexpired entries for `a`. -/
+def tallyVoters (now : Nat) (l : List (Entry α)) (a : α) : List Nat :=
+  (l.filter (fun e => decide (now < e.expiry) && decide (e.vote = a))).map (fun e => e.voter)
+
+theorem tallyVoters_length (now : Nat) (l : List (Entry α)) (a : α) :
+    (tallyVoters now l a).length = countOf now l a := by
+  unfold tallyVoters; rw [List.length_map]; rfl
+
+theorem tallyVoters_nodup (now : Nat) {l : List (Entry α)} (hk : KeysNodup l) (a : α) :
+    (tallyVoters now l a).Nodup := by
+  unfold KeysNodup at hk
+  exact (List.filter_sublist.map _).nodup hk
+
+/-- With every entry the latest counted vote of its voter, each voter behind the tally of `a` has
+`a` as latest counted vote in the family, unexpired. -/
+theorem tallyVoters_sound (mk : α → Sock α) (fam : Bool)
+    (L : List (Cast α)) (l : List (Entry α))
+    (hl : ∀ en, en ∈ l → latest L fam en.voter = some ⟨en.voter, mk en.vote, en.expiry⟩)
+    (now : Nat) (a : α) :
+    ∀ x, x ∈ tallyVoters now l a → ∃ exp, latest L fam x = some ⟨x, mk a, exp⟩ ∧ now < exp := by
+  intro x hx
+  simp only [tallyVoters, List.mem_map, List.mem_filter, Bool.and_eq_true, decide_eq_true_eq] at hx
+  obtain ⟨en, ⟨he, hlive, hvote⟩, rfl⟩ := hx
+  exact ⟨en.expiry, by rw [hl en he, hvote], hlive⟩
+
+/-! ### Completeness of the table under monotone clocks
+
+The table never loses a vote that is still valid: if the clock readings never go back, every
+latest counted vote that has not expired by the last reading is still in the table. -/
+
+/-- `x`'s latest counted vote in the family `fam` is for the socket `s` and unexpired at `now`. -/
+def VotesFor (L : List (Cast α)) (fam : Bool) (now : Nat) (x : Nat) (s : Sock α) : Prop :=
+  ∃ exp, latest L fam x = some ⟨x, s, exp⟩ ∧ now < exp
+
+/-- Every latest counted vote still valid after `T` is in the table. -/
+structure LComp (T : Nat) (L : List (Cast α)) (v : IpVote α) : Prop where
+  c4 : ∀ x c, latest L false x = some c → T < c.expiry →
+    ∃ en, en ∈ v.v4 ∧ en.voter = x ∧ Sock.v4 en.vote = c.sock ∧ en.expiry = c.expiry
+  c6 : ∀ x c, latest L true x = some c → T < c.expiry →
+    ∃ en, en ∈ v.v6 ∧ en.voter = x ∧ Sock.v6 en.vote = c.sock ∧ en.expiry = c.expiry
+
+def SLComp (T : Nat) (L : List (Cast α)) (A : IpVote.Svc α) : Prop :=
+  ∀ v, A.votes = some v → LComp T L v
+
+omit [DecidableEq α] in
+theorem LComp.mono {T T' : Nat} {L : List (Cast α)} {v : IpVote α} (h : LComp T L v) (hT : T ≤ T') :
+    LComp T' L v :=
+  ⟨fun x c hl he => h.c4 x c hl (by omega), fun x c hl he => h.c6 x c hl (by omega)⟩
+
+omit [DecidableEq α] in
+theorem LComp.clearOld {T : Nat} {L : List (Cast α)} {v : IpVote α} (h : LComp T L v) (now : Nat)
+    (hT : T ≤ now) : LComp now L (v.clearOld now) := by
+  constructor
+  · intro x c hl he
+    obtain ⟨en, hm, h1, h2, h3⟩ := h.c4 x c hl (by omega)
+    exact ⟨en, List.mem_filter.2 ⟨hm, by simp; omega⟩, h1, h2, h3⟩
+  · intro x c hl he
+    obtain ⟨en, hm, h1, h2, h3⟩ := h.c6 x c hl (by omega)
+    exact ⟨en, List.mem_filter.2 ⟨hm, by simp; omega⟩, h1, h2, h3⟩
+
+omit [DecidableEq α] in
+theorem latest_voter {L : List (Cast α)} {fam : Bool} {x : Nat} {c : Cast α}
+    (h : latest L fam x = some c) : c.voter = x ∧ c.sock.isV6 = fam := by
+  unfold latest at h
+  have := List.find?_some h
+  simpa using this
+
+omit [DecidableEq α] in
+theorem LComp.insert {T : Nat} {L : List (Cast α)} {v : IpVote α} (h : LComp T L v)
+    (now k : Nat) (sock : Sock α) :
+    LComp T (⟨k, sock, now + v.duration⟩ :: L) (v.insert now k sock) := by
+  have key : ∀ (fam : Bool) (x : Nat) (c : Cast α),
+      latest (⟨k, sock, now + v.duration⟩ :: L) fam x = some c →
+      (x = k ∧ sock.isV6 = fam ∧ c = ⟨k, sock, now + v.duration⟩) ∨
+      ((x ≠ k ∨ sock.isV6 ≠ fam) ∧ latest L fam x = some c) := by
+    intro fam x c hl
+    by_cases hx : k = x ∧ sock.isV6 = fam
+    · left
+      obtain ⟨rfl, rfl⟩ := hx
+      have := latest_cons_self L ⟨k, sock, now + v.duration⟩
+      simp only at this
+      rw [this] at hl
+      exact ⟨rfl, rfl, by cases hl; rfl⟩
+    · right
+      have hx' : (⟨k, sock, now + v.duration⟩ : Cast α).voter ≠ x ∨
+          (⟨k, sock, now + v.duration⟩ : Cast α).sock.isV6 ≠ fam := by
+        by_cases h1 : k = x
+        · exact Or.inr (fun h2 => hx ⟨h1, h2⟩)
+        · exact Or.inl h1
+      rw [latest_cons_other _ _ _ _ hx'] at hl
+      refine ⟨?_, hl⟩
+      rcases hx' with h1 | h1
+      · exact Or.inl (fun h2 => h1 h2.symm)
+      · exact Or.inr h1
+  cases sock with
+  | v4 a =>
+    constructor
+    · intro x c hl he
+      rcases key false x c hl with ⟨rfl, _, rfl⟩ | ⟨hne, hl'⟩
+      · exact ⟨⟨x, a, now + v.duration⟩, by simp [IpVote.insert, mapInsert], rfl, rfl, rfl⟩
+      · obtain ⟨en, hm, h1, h2, h3⟩ := h.c4 x c hl' he
+        refine ⟨en, ?_, h1, h2, h3⟩
+        simp only [IpVote.insert, mapInsert, List.mem_append, List.mem_filter]
+        left
+        refine ⟨hm, ?_⟩
+        rcases hne with hne | hne
+        · rw [h1]; simpa using hne
+        · exact absurd rfl hne
+    · intro x c hl he
+      rcases key true x c hl with ⟨_, hf, _⟩ | ⟨_, hl'⟩
+      · cases hf
+      · exact h.c6 x c hl' he
+  | v6 a =>
+    constructor
+    · intro x c hl he
+      rcases key false x c hl with ⟨_, hf, _⟩ | ⟨_, hl'⟩
+      · cases hf
+      · exact h.c4 x c hl' he
+    · intro x c hl he
+      rcases key true x c hl with ⟨rfl, _, rfl⟩ | ⟨hne, hl'⟩
+      · exact ⟨⟨x, a, now + v.duration⟩, by simp [IpVote.insert, mapInsert], rfl, rfl, rfl⟩
+      · obtain ⟨en, hm, h1, h2, h3⟩ := h.c6 x c hl' he
+        refine ⟨en, ?_, h1, h2, h3⟩
+        simp only [IpVote.insert, mapInsert, List.mem_append, List.mem_filter]
+        left
+        refine ⟨hm, ?_⟩
+        rcases hne with hne | hne
+        · rw [h1]; simpa using hne
+        · exact absurd rfl hne
+
+theorem LComp.majority {T : Nat} {L : List (Cast α)} {v : IpVote α} (h : LComp T L v)
+    (thr : Nat → Nat) (now : Nat) (hT : T ≤ now)
+    {sh4 sh6 : List (Entry α) → List (Entry α)} (h4 : IsShuffle sh4) (h6 : IsShuffle sh6) :
+    LComp now L (v.majority thr now sh4 sh6).1 := by
+  unfold IpVote.majority
+  simp only []
+  rw [mostFrequent_updated, mostFrequent_updated]
+  constructor
+  · intro x c hl he
+    obtain ⟨en, hm, h1, h2, h3⟩ := h.c4 x c hl (by omega)
+    exact ⟨en, List.mem_filter.2 ⟨(h4 _).mem_iff.2 hm, by simp; omega⟩, h1, h2, h3⟩
+  · intro x c hl he
+    obtain ⟨en, hm, h1, h2, h3⟩ := h.c6 x c hl (by omega)
+    exact ⟨en, List.mem_filter.2 ⟨(h6 _).mem_iff.2 hm, by simp; omega⟩, h1, h2, h3⟩
+
+omit [DecidableEq α] in
+theorem requireMore_lcomp {T : Nat} {L : List (Cast α)} {A : IpVote.Svc α} (h : SLComp T L A)
+    (now : Nat) (hT : T ≤ now) (b : Bool) : SLComp now L (requireMore A now b).1 := by
+  unfold requireMore
+  split
+  · intro v hv; exact (h v hv).mono hT
+  · split
+    · intro v hv; exact (h v hv).mono hT
+    · rename_i v hv
+      intro v' hv'
+      simp only [Option.some.injEq] at hv'
+      subst hv'
+      exact (h v hv).clearOld now hT
+
+/-- Completeness is kept by every PONG whose clock readings do not go back. -/
+theorem pongStep_lcomp {T : Nat} {L : List (Cast α)} {A : IpVote.Svc α} (h : SLComp T L A)
+    (thr : Nat → Nat) (p : Pong α) (hp : p.Valid)
+    (h1 : T ≤ p.tClear) (h2 : p.tClear ≤ p.tIns) (h3 : p.tIns ≤ p.tMaj) :
+    SLComp p.tMaj ((castOf A p).toList ++ L) (pongStep thr A p).1 := by
+  by_cases hc : counted A p = true
+  · obtain ⟨v, hv, hstep⟩ := pongStep_counted thr A p hc
+    have hcast : castOf A p = some ⟨p.voter, p.sock, p.tIns + v.duration⟩ := by
+      unfold castOf; rw [if_pos hc, hv]; rfl
+    rw [hcast, hstep]
+    intro v' hv'
+    rw [(countVote_full thr _ v p).1] at hv'
+    simp only [Option.some.injEq] at hv'
+    subst hv'
+    have hr := requireMore_lcomp h p.tClear h1 p.sock.isV6 v hv
+    exact (hr.insert p.tIns p.voter p.sock).majority thr p.tMaj (by omega) hp.1 hp.2
+  · have hc' : counted A p = false := by simpa using hc
+    have hcast : castOf A p = none := by unfold castOf; rw [if_neg hc]
+    rw [hcast]
+    obtain ⟨_, _, hv | hv⟩ := pongStep_uncounted thr A p hc'
+    · intro v' hv'; rw [hv] at hv'; exact (h v' hv').mono (by omega)
+    · intro v' hv'; rw [hv] at hv'
+      exact (requireMore_lcomp h p.tClear h1 p.sock.isV6 v' hv').mono (by omega)
+
+/-- With a sound and complete table, any distinct voters whose latest counted vote is `b` and
+unexpired are at most the tally of `b`. -/
+theorem voters_le_tally (mk : α → Sock α) (hmk : ∀ a b, mk a = mk b → a = b) (fam : Bool)
+    (L : List (Cast α)) (l : List (Entry α)) (now : Nat)
+    (hc : ∀ x c, latest L fam x = some c → now < c.expiry →
+      ∃ en, en ∈ l ∧ en.voter = x ∧ mk en.vote = c.sock ∧ en.expiry = c.expiry)
+    (b : α) (ws : List Nat) (hnd : ws.Nodup) (hws : ∀ x, x ∈ ws → VotesFor L fam now x (mk b)) :
+    ws.length ≤ countOf now l b := by
+  unfold countOf
+  rw [← List.length_map (f := fun e : Entry α => e.voter)]
+  apply List.Nodup.length_le_of_subset hnd
+  intro x hx
+  obtain ⟨exp, hl, hlive⟩ := hws x hx
+  obtain ⟨en, hm, h1, h2, h3⟩ := hc x _ hl hlive
+  simp only [List.mem_map, List.mem_filter, Bool.and_eq_true, decide_eq_true_eq]
+  exact ⟨en, ⟨hm, by rw [h3]; exact hlive, hmk _ _ h2⟩, h1⟩
+
+/-- With a complete table, every voter whose latest counted vote is `a` and unexpired is behind
+the tally of `a`. -/
+theorem tallyVoters_complete (mk : α → Sock α) (hmk : ∀ a b, mk a = mk b → a = b) (fam : Bool)
+    (L : List (Cast α)) (l : List (Entry α)) (now : Nat)
+    (hc : ∀ x c, latest L fam x = some c → now < c.expiry →
+      ∃ en, en ∈ l ∧ en.voter = x ∧ mk en.vote = c.sock ∧ en.expiry = c.expiry)
+    (a : α) (x : Nat) (hx : VotesFor L fam now x (mk a)) : x ∈ tallyVoters now l a := by
+  obtain ⟨exp, hl, hlive⟩ := hx
+  obtain ⟨en, hm, h1, h2, h3⟩ := hc x _ hl hlive
+  simp only [tallyVoters, List.mem_map, List.mem_filter, Bool.and_eq_true, decide_eq_true_eq]
+  exact ⟨en, ⟨hm, by rw [h3]; exact hlive, hmk _ _ h2⟩, h1⟩
+
+theorem pongStep_votes_isSome (thr : Nat → Nat) (A : IpVote.Svc α) (p : Pong α) :
+    (pongStep thr A p).1.votes.isSome = A.votes.isSome := by
+  by_cases hc : counted A p = true
+  · obtain ⟨v, hv, hstep⟩ := pongStep_counted thr A p hc
+    rw [hstep, (countVote_full thr _ v p).1]
+    unfold counted at hc
+    simp only [Bool.and_eq_true] at hc
+    rw [hc.1.2]; rfl
+  · obtain ⟨_, _, h | h⟩ := pongStep_uncounted thr A p (by simpa using hc)
+    · rw [h]
+    · rw [h]; exact requireMore_votes_isSome ..
+
 end PongStep
+
+/-! ## Histories of the composed system -/
+
+open Discv5.IpVote (SOk VOk KeysNodup countOf ClearMajority)
+
+/-- The ledger entry of a step: the counted vote, if the step is a PONG whose vote is counted. -/
+def stepCast (c : CSt) (e : Env) (inp : Input) : Option (Cast Nat) :=
+  (votePong c.svc e inp).bind (castOf c.abs)
+
+/-- The ledger of counted votes of a history, newest first. -/
+def ledgerOf (thr : Nat → Nat) (c : CSt) : List (Env × Input) → List (Cast Nat)
+  | [] => []
+  | (e, inp) :: rest => ledgerOf thr (cstep thr c e inp).1 rest ++ (stepCast c e inp).toList
+
+/-- Invariant of the composed system along a history: the coupling, one entry per voter backed
+by a PONG of the history (`SOk`), every entry is its voter's latest counted vote (`SLOk`). -/
+structure CInv (minimum : Nat) (hist : List (Pong Nat)) (L : List (Cast Nat)) (c : CSt) : Prop where
+  coupled : c.Coupled
+  ok : SOk minimum hist c.abs
+  lok : SLOk L c.abs
+
+theorem pongOf_valid {e : Env} (he : e.Valid) (peer : Nat) (observed : Addr) (b : Bool) :
+    (pongOf e peer observed b).Valid := he
+
+theorem cstep_inv (thr : Nat → Nat) {minimum : Nat} {hist : List (Pong Nat)} {L : List (Cast Nat)}
+    {c : CSt} (h : CInv minimum hist L c) (e : Env) (he : e.Valid) (inp : Input) :
+    CInv minimum (hist ++ (votePong c.svc e inp).toList) ((stepCast c e inp).toList ++ L)
+      (cstep thr c e inp).1 := by
+  cases hv : votePong c.svc e inp with
+  | some p =>
+    obtain ⟨habs, _, _, hcfg⟩ := cstep_pong thr c h.coupled e inp p hv
+    have hpv : p.Valid := by
+      obtain ⟨peer, addr, id, enrSeq, observed, _, _, rfl⟩ := votePong_some hv
+      exact pongOf_valid he ..
+    have hvotes : (cstep thr c e inp).1.votes = (pongStep thr c.abs p).1.votes := by
+      have := congrArg IpVote.Svc.votes habs; exact this
+    refine ⟨?_, ?_, ?_⟩
+    · unfold CSt.Coupled
+      rw [hvotes, pongStep_votes_isSome, hcfg]
+      exact h.coupled
+    · rw [habs]; exact IpVote.pongStep_ok h.ok thr p hpv
+    · rw [habs]
+      unfold stepCast
+      rw [hv]
+      exact pongStep_lok h.lok thr p hpv
+  | none =>
+    obtain ⟨hloc, hcfg, _, hv1, hv2⟩ := cstep_other thr c e inp hv
+    have hcast : stepCast c e inp = none := by unfold stepCast; rw [hv]; rfl
+    rw [hcast]
+    simp only [Option.toList, List.append_nil, List.nil_append]
+    cases hp : pruneAsk c.svc inp with
+    | none =>
+      have hvv := hv1 hp
+      refine ⟨?_, ?_, ?_⟩
+      · unfold CSt.Coupled; rw [hvv, hcfg]; exact h.coupled
+      · intro v hvs; exact h.ok v (by show c.votes = some v; rw [← hvv]; exact hvs)
+      · intro v hvs; exact h.lok v (by show c.votes = some v; rw [← hvv]; exact hvs)
+    | some b =>
+      have hvv := hv2 b hp
+      refine ⟨?_, ?_, ?_⟩
+      · unfold CSt.Coupled; rw [hvv, requireMore_votes_isSome, hcfg]; exact h.coupled
+      · intro v hvs
+        exact IpVote.requireMore_ok h.ok e.tClear b v (by rw [← hvv]; exact hvs)
+      · intro v hvs
+        exact requireMore_lok h.lok e.tClear b v (by rw [← hvv]; exact hvs)
+
+theorem crun_cons (thr : Nat → Nat) (c : CSt) (e : Env) (inp : Input) (rest : List (Env × Input)) :
+    crun thr c ((e, inp) :: rest) =
+      ((crun thr (cstep thr c e inp).1 rest).1, (cstep thr c e inp).2 ++ (crun thr (cstep thr c e inp).1 rest).2) :=
+  rfl
+
+/-- The invariant holds along every history (valid visiting orders). -/
+theorem crun_inv (thr : Nat → Nat) (minimum : Nat) (steps : List (Env × Input)) :
+    ∀ (hist : List (Pong Nat)) (L : List (Cast Nat)) (c : CSt), CInv minimum hist L c →
+      (∀ x, x ∈ steps → x.1.Valid) →
+      CInv minimum (hist ++ pongsOf thr c steps) (ledgerOf thr c steps ++ L) (crun thr c steps).1 := by
+  induction steps with
+  | nil => intro hist L c h _; simpa [pongsOf, ledgerOf, crun] using h
+  | cons x rest ih =>
+    intro hist L c h hv
+    obtain ⟨e, inp⟩ := x
+    have h1 := cstep_inv thr h e (hv (e, inp) (List.mem_cons_self ..)) inp
+    have h2 := ih _ _ _ h1 (fun y hy => hv y (List.mem_cons_of_mem _ hy))
+    rw [crun_cons]
+    simpa [pongsOf, ledgerOf, List.append_assoc] using h2
+
+/-- A composed state at start-up: coupled, and the vote table (if any) empty with the configured
+minimum. -/
+def CSt.Fresh (c : CSt) (minimum : Nat) : Prop := c.Coupled ∧ c.abs.Fresh minimum
+
+theorem fresh_inv {c : CSt} {minimum : Nat} (h : c.Fresh minimum) : CInv minimum [] [] c := by
+  refine ⟨h.1, IpVote.fresh_ok h.2, ?_⟩
+  intro v hv
+  obtain ⟨h4, h6, _⟩ := h.2 v hv
+  constructor
+  · intro en he; rw [h4] at he; cases he
+  · intro en he; rw [h6] at he; cases he
+
+
+/-! ## What a step can do to the record -/
+
+/-- The three outcomes of a step of the composed system: the local record is untouched and no
+`SocketUpdated` is emitted; or the step is a vote-reaching PONG whose `pongStep` moved the IPv4
+(IPv6) socket (`Moved4` / `Moved6`), the new record is the old one with `set_udp_socket` applied,
+and exactly the one event is emitted. -/
+theorem cstep_shape (thr : Nat → Nat) (c : CSt) (hc : c.Coupled) (e : Env) (inp : Input) :
+    ((cstep thr c e inp).1.svc.localRec = c.svc.localRec ∧ sockEvs (cstep thr c e inp).2 = []) ∨
+    (∃ p a, votePong c.svc e inp = some p ∧ Moved4 thr c.abs p a ∧
+      (cstep thr c e inp).1.svc.localRec = setSocket c.svc.localRec e (.v4 a) ∧
+      sockEvs (cstep thr c e inp).2 = [{ v6 := false, sock := a }]) ∨
+    (∃ p a, votePong c.svc e inp = some p ∧ Moved6 thr c.abs p a ∧
+      (cstep thr c e inp).1.svc.localRec = setSocket c.svc.localRec e (.v6 a) ∧
+      sockEvs (cstep thr c e inp).2 = [{ v6 := true, sock := a }]) := by
+  cases hv : votePong c.svc e inp with
+  | none =>
+    obtain ⟨hloc, _, hev, _⟩ := cstep_other thr c e inp hv
+    exact Or.inl ⟨hloc, hev⟩
+  | some p =>
+    obtain ⟨_, hloc, hev, _⟩ := cstep_pong thr c hc e inp p hv
+    rcases pongStep_shape thr c.abs p with ⟨_, h2⟩ | ⟨a, hm⟩ | ⟨a, hm⟩
+    · left; rw [hloc, hev, h2]; exact ⟨rfl, rfl⟩
+    · right; left
+      refine ⟨p, a, rfl, hm, ?_, ?_⟩
+      · rw [hloc, hm.evs]; rfl
+      · rw [hev, hm.evs]; rfl
+    · right; right
+      refine ⟨p, a, rfl, hm, ?_, ?_⟩
+      · rw [hloc, hm.evs]; rfl
+      · rw [hev, hm.evs]; rfl
+
+/-! ## Appending histories -/
+
+theorem crun_append (thr : Nat → Nat) (xs ys : List (Env × Input)) :
+    ∀ c : CSt, (crun thr c (xs ++ ys)).1 = (crun thr (crun thr c xs).1 ys).1 := by
+  induction xs with
+  | nil => intro c; rfl
+  | cons x xs ih => intro c; obtain ⟨e, inp⟩ := x; rw [List.cons_append, crun_cons, crun_cons]; exact ih _
+
+theorem crun_append_outs (thr : Nat → Nat) (xs ys : List (Env × Input)) :
+    ∀ c : CSt, (crun thr c (xs ++ ys)).2 = (crun thr c xs).2 ++ (crun thr (crun thr c xs).1 ys).2 := by
+  induction xs with
+  | nil => intro c; rfl
+  | cons x xs ih =>
+    intro c; obtain ⟨e, inp⟩ := x
+    rw [List.cons_append, crun_cons, crun_cons]
+    simp only [ih, List.append_assoc]
+
+theorem ledgerOf_append (thr : Nat → Nat) (xs ys : List (Env × Input)) :
+    ∀ c : CSt, ledgerOf thr c (xs ++ ys) = ledgerOf thr (crun thr c xs).1 ys ++ ledgerOf thr c xs := by
+  induction xs with
+  | nil => intro c; simp [ledgerOf, crun]
+  | cons x xs ih =>
+    intro c; obtain ⟨e, inp⟩ := x
+    rw [List.cons_append, crun_cons]
+    simp only [ledgerOf, ih, List.append_assoc]
+
+theorem pongsOf_append (thr : Nat → Nat) (xs ys : List (Env × Input)) :
+    ∀ c : CSt, pongsOf thr c (xs ++ ys) = pongsOf thr c xs ++ pongsOf thr (crun thr c xs).1 ys := by
+  induction xs with
+  | nil => intro c; simp [pongsOf, crun]
+  | cons x xs ih =>
+    intro c; obtain ⟨e, inp⟩ := x
+    rw [List.cons_append, crun_cons]
+    simp only [pongsOf, ih, List.append_assoc]
+
+/-- Every vote-reaching PONG of a history is a PONG response among its inputs. -/
+theorem pongsOf_mem (thr : Nat → Nat) (steps : List (Env × Input)) :
+    ∀ (c : CSt) (q : Pong Nat), q ∈ pongsOf thr c steps →
+      ∃ e peer addr id enrSeq observed,
+        (e, Input.response peer addr id (.pong enrSeq observed)) ∈ steps ∧
+        q.voter = peer ∧ q.sock = sockOf observed := by
+  induction steps with
+  | nil => intro c q h; cases h
+  | cons x rest ih =>
+    intro c q h
+    obtain ⟨e, inp⟩ := x
+    simp only [pongsOf, List.mem_append] at h
+    rcases h with h | h
+    · cases hv : votePong c.svc e inp with
+      | none => rw [hv] at h; cases h
+      | some p =>
+        rw [hv] at h
+        simp only [Option.toList, List.mem_singleton] at h
+        subst h
+        obtain ⟨peer, addr, id, enrSeq, observed, rfl, _, rfl⟩ := votePong_some hv
+        exact ⟨e, peer, addr, id, enrSeq, observed, List.mem_cons_self .., rfl, rfl⟩
+    · obtain ⟨e', peer, addr, id, enrSeq, observed, hm, h1, h2⟩ := ih _ q h
+      exact ⟨e', peer, addr, id, enrSeq, observed, List.mem_cons_of_mem _ hm, h1, h2⟩
+
+/-! ## Fewer voters than the minimum -/
+
+theorem cstep_few_liars4 (thr : Nat → Nat) {minimum : Nat} {hist : List (Pong Nat)} {L : List (Cast Nat)}
+    {c : CSt} (h : CInv minimum hist L c) (e : Env) (he : e.Valid) (inp : Input) (a : Nat)
+    (liars : List Nat) (hfew : liars.length < minimum)
+    (hl : ∀ q, q ∈ hist ++ (votePong c.svc e inp).toList → q.sock = Sock.v4 a → q.voter ∈ liars)
+    (hnew : (cstep thr c e inp).1.svc.localRec.udp4 = some a) : c.svc.localRec.udp4 = some a := by
+  cases hv : votePong c.svc e inp with
+  | none =>
+    rw [(cstep_other thr c e inp hv).1] at hnew; exact hnew
+  | some p =>
+    obtain ⟨habs, _, _, _⟩ := cstep_pong thr c h.coupled e inp p hv
+    have hpv : p.Valid := by
+      obtain ⟨peer, addr, id, enrSeq, observed, _, _, rfl⟩ := votePong_some hv
+      exact pongOf_valid he ..
+    rw [hv] at hl
+    have hnew' : (pongStep thr c.abs p).1.enr.ip4 = some a := by rw [← habs]; exact hnew
+    exact IpVote.pongStep_few_liars4 thr minimum hist c.abs h.ok p hpv a liars hl hfew hnew'
+
+theorem cstep_few_liars6 (thr : Nat → Nat) {minimum : Nat} {hist : List (Pong Nat)} {L : List (Cast Nat)}
+    {c : CSt} (h : CInv minimum hist L c) (e : Env) (he : e.Valid) (inp : Input) (a : Nat)
+    (liars : List Nat) (hfew : liars.length < minimum)
+    (hl : ∀ q, q ∈ hist ++ (votePong c.svc e inp).toList → q.sock = Sock.v6 a → q.voter ∈ liars)
+    (hnew : (cstep thr c e inp).1.svc.localRec.udp6 = some a) : c.svc.localRec.udp6 = some a := by
+  cases hv : votePong c.svc e inp with
+  | none =>
+    rw [(cstep_other thr c e inp hv).1] at hnew; exact hnew
+  | some p =>
+    obtain ⟨habs, _, _, _⟩ := cstep_pong thr c h.coupled e inp p hv
+    have hpv : p.Valid := by
+      obtain ⟨peer, addr, id, enrSeq, observed, _, _, rfl⟩ := votePong_some hv
+      exact pongOf_valid he ..
+    rw [hv] at hl
+    have hnew' : (pongStep thr c.abs p).1.enr.ip6 = some a := by rw [← habs]; exact hnew
+    exact IpVote.pongStep_few_liars6 thr minimum hist c.abs h.ok p hpv a liars hl hfew hnew'
+
+theorem crun_few_liars4 (thr : Nat → Nat) (minimum : Nat) (a : Nat) (liars : List Nat)
+    (hfew : liars.length < minimum) (steps : List (Env × Input)) :
+    ∀ (hist : List (Pong Nat)) (L : List (Cast Nat)) (c : CSt), CInv minimum hist L c →
+      (∀ x, x ∈ steps → x.1.Valid) →
+      (∀ q, q ∈ hist ++ pongsOf thr c steps → q.sock = Sock.v4 a → q.voter ∈ liars) →
+      (crun thr c steps).1.svc.localRec.udp4 = some a → c.svc.localRec.udp4 = some a := by
+  induction steps with
+  | nil => intro hist L c _ _ _ h; exact h
+  | cons x rest ih =>
+    intro hist L c h hv hl hnew
+    obtain ⟨e, inp⟩ := x
+    have he := hv (e, inp) (List.mem_cons_self ..)
+    have h1 := cstep_inv thr h e he inp
+    rw [crun_cons] at hnew
+    have h2 := ih _ _ _ h1 (fun y hy => hv y (List.mem_cons_of_mem _ hy))
+      (fun q hq => hl q (by simpa [pongsOf, List.append_assoc] using hq)) hnew
+    exact cstep_few_liars4 thr h e he inp a liars hfew
+      (fun q hq => hl q (by
+        simp only [pongsOf, List.mem_append] at hq ⊢
+        rcases hq with hq | hq
+        · exact Or.inl hq
+        · exact Or.inr (Or.inl hq))) h2
+
+theorem crun_few_liars6 (thr : Nat → Nat) (minimum : Nat) (a : Nat) (liars : List Nat)
+    (hfew : liars.length < minimum) (steps : List (Env × Input)) :
+    ∀ (hist : List (Pong Nat)) (L : List (Cast Nat)) (c : CSt), CInv minimum hist L c →
+      (∀ x, x ∈ steps → x.1.Valid) →
+      (∀ q, q ∈ hist ++ pongsOf thr c steps → q.sock = Sock.v6 a → q.voter ∈ liars) →
+      (crun thr c steps).1.svc.localRec.udp6 = some a → c.svc.localRec.udp6 = some a := by
+  induction steps with
+  | nil => intro hist L c _ _ _ h; exact h
+  | cons x rest ih =>
+    intro hist L c h hv hl hnew
+    obtain ⟨e, inp⟩ := x
+    have he := hv (e, inp) (List.mem_cons_self ..)
+    have h1 := cstep_inv thr h e he inp
+    rw [crun_cons] at hnew
+    have h2 := ih _ _ _ h1 (fun y hy => hv y (List.mem_cons_of_mem _ hy))
+      (fun q hq => hl q (by simpa [pongsOf, List.append_assoc] using hq)) hnew
+    exact cstep_few_liars6 thr h e he inp a liars hfew
+      (fun q hq => hl q (by
+        simp only [pongsOf, List.mem_append] at hq ⊢
+        rcases hq with hq | hq
+        · exact Or.inl hq
+        · exact Or.inr (Or.inl hq))) h2
+
+/-- Along any history the sequence number grows by exactly the number of `SocketUpdated` events. -/
+theorem crun_seq (thr : Nat → Nat) (steps : List (Env × Input)) :
+    ∀ c : CSt, c.Coupled →
+      (crun thr c steps).1.svc.localRec.seq = c.svc.localRec.seq + (sockEvs (crun thr c steps).2).length := by
+  induction steps with
+  | nil => intro c _; rfl
+  | cons x rest ih =>
+    intro c hc
+    obtain ⟨e, inp⟩ := x
+    have hinv : (cstep thr c e inp).1.Coupled := by
+      cases hv : votePong c.svc e inp with
+      | some p =>
+        obtain ⟨habs, _, _, hcfg⟩ := cstep_pong thr c hc e inp p hv
+        have hvotes : (cstep thr c e inp).1.votes = (pongStep thr c.abs p).1.votes :=
+          congrArg IpVote.Svc.votes habs
+        unfold CSt.Coupled
+        rw [hvotes, pongStep_votes_isSome, hcfg]; exact hc
+      | none =>
+        obtain ⟨_, hcfg, _, hv1, hv2⟩ := cstep_other thr c e inp hv
+        unfold CSt.Coupled
+        cases hp : pruneAsk c.svc inp with
+        | none => rw [hv1 hp, hcfg]; exact hc
+        | some b => rw [hv2 b hp, requireMore_votes_isSome, hcfg]; exact hc
+    rw [crun_cons, sockEvs_append, List.length_append, ih _ hinv]
+    rcases cstep_shape thr c hc e inp with ⟨h1, h2⟩ | ⟨p, a, _, _, h1, h2⟩ | ⟨p, a, _, _, h1, h2⟩
+    · rw [h1, h2]; simp
+    · rw [h1, h2]; simp [setSocket]; omega
+    · rw [h1, h2]; simp [setSocket]; omega
+
+
+/-! ## Monotone clocks: the table is exactly the set of live latest counted votes -/
+
+/-- The clock readings of a history never go back (`T` is the last reading before it). -/
+def MonoFrom : Nat → List (Env × Input) → Prop
+  | _, [] => True
+  | T, (e, _) :: rest => T ≤ e.tClear ∧ e.tClear ≤ e.tIns ∧ e.tIns ≤ e.tMaj ∧ MonoFrom e.tMaj rest
+
+/-- The last clock reading of a history. -/
+def lastClock : Nat → List (Env × Input) → Nat
+  | T, [] => T
+  | _, (e, _) :: rest => lastClock e.tMaj rest
+
+theorem cstep_comp (thr : Nat → Nat) {T : Nat} {L : List (Cast Nat)} {c : CSt} (hc : c.Coupled)
+    (h : SLComp T L c.abs) (e : Env) (he : e.Valid) (h1 : T ≤ e.tClear) (h2 : e.tClear ≤ e.tIns)
+    (h3 : e.tIns ≤ e.tMaj) (inp : Input) :
+    SLComp e.tMaj ((stepCast c e inp).toList ++ L) (cstep thr c e inp).1.abs := by
+  cases hv : votePong c.svc e inp with
+  | some p =>
+    obtain ⟨habs, _, _, _⟩ := cstep_pong thr c hc e inp p hv
+    obtain ⟨peer, addr, id, enrSeq, observed, _, _, hp⟩ := votePong_some hv
+    have hpv : p.Valid := by rw [hp]; exact pongOf_valid he ..
+    have := pongStep_lcomp h thr p hpv (by rw [hp]; exact h1) (by rw [hp]; exact h2) (by rw [hp]; exact h3)
+    rw [habs]
+    unfold stepCast
+    rw [hv]
+    have ht : p.tMaj = e.tMaj := by rw [hp]; rfl
+    rw [ht] at this
+    exact this
+  | none =>
+    obtain ⟨_, _, _, hv1, hv2⟩ := cstep_other thr c e inp hv
+    have hcast : stepCast c e inp = none := by unfold stepCast; rw [hv]; rfl
+    rw [hcast]
+    simp only [Option.toList, List.nil_append]
+    cases hp : pruneAsk c.svc inp with
+    | none =>
+      intro v hvs
+      exact (h v (by show c.votes = some v; rw [← hv1 hp]; exact hvs)).mono (by omega)
+    | some b =>
+      intro v hvs
+      exact (requireMore_lcomp h e.tClear h1 b v (by rw [← hv2 b hp]; exact hvs)).mono (by omega)
+
+theorem cstep_coupled (thr : Nat → Nat) {c : CSt} (hc : c.Coupled) (e : Env) (inp : Input) :
+    (cstep thr c e inp).1.Coupled := by
+  cases hv : votePong c.svc e inp with
+  | some p =>
+    obtain ⟨habs, _, _, hcfg⟩ := cstep_pong thr c hc e inp p hv
+    have hvotes : (cstep thr c e inp).1.votes = (pongStep thr c.abs p).1.votes :=
+      congrArg IpVote.Svc.votes habs
+    unfold CSt.Coupled
+    rw [hvotes, pongStep_votes_isSome, hcfg]; exact hc
+  | none =>
+    obtain ⟨_, hcfg, _, hv1, hv2⟩ := cstep_other thr c e inp hv
+    unfold CSt.Coupled
+    cases hp : pruneAsk c.svc inp with
+    | none => rw [hv1 hp, hcfg]; exact hc
+    | some b => rw [hv2 b hp, requireMore_votes_isSome, hcfg]; exact hc
+
+theorem crun_coupled (thr : Nat → Nat) (steps : List (Env × Input)) :
+    ∀ c : CSt, c.Coupled → (crun thr c steps).1.Coupled := by
+  induction steps with
+  | nil => intro c h; exact h
+  | cons x rest ih =>
+    intro c h; obtain ⟨e, inp⟩ := x
+    rw [crun_cons]; exact ih _ (cstep_coupled thr h e inp)
+
+theorem crun_comp (thr : Nat → Nat) (steps : List (Env × Input)) :
+    ∀ (T : Nat) (L : List (Cast Nat)) (c : CSt), c.Coupled → SLComp T L c.abs →
+      (∀ x, x ∈ steps → x.1.Valid) → MonoFrom T steps →
+      SLComp (lastClock T steps) (ledgerOf thr c steps ++ L) (crun thr c steps).1.abs := by
+  induction steps with
+  | nil => intro T L c _ h _ _; simpa [lastClock, ledgerOf, crun] using h
+  | cons x rest ih =>
+    intro T L c hc h hv hm
+    obtain ⟨e, inp⟩ := x
+    obtain ⟨m1, m2, m3, m4⟩ := hm
+    have h1 := cstep_comp thr hc h e (hv (e, inp) (List.mem_cons_self ..)) m1 m2 m3 inp
+    have h2 := ih _ _ _ (cstep_coupled thr hc e inp) h1 (fun y hy => hv y (List.mem_cons_of_mem _ hy)) m4
+    rw [crun_cons]
+    simpa [lastClock, ledgerOf, List.append_assoc] using h2
+
+theorem monoFrom_append {T : Nat} {xs ys : List (Env × Input)} (h : MonoFrom T (xs ++ ys)) :
+    MonoFrom T xs ∧ MonoFrom (lastClock T xs) ys := by
+  induction xs generalizing T with
+  | nil => exact ⟨trivial, h⟩
+  | cons x xs ih =>
+    obtain ⟨e, inp⟩ := x
+    obtain ⟨m1, m2, m3, m4⟩ := h
+    obtain ⟨i1, i2⟩ := ih m4
+    exact ⟨⟨m1, m2, m3, i1⟩, i2⟩
+
+theorem comp_nil (c : CSt) (T : Nat) : SLComp T [] c.abs := by
+  intro v _
+  constructor <;> intro x c hl <;> cases hl
+
+/-! ## The voters behind a change -/
+
+/-- A step moved the IPv4 socket to `a` (`Moved4`): in the table `v'` the step leaves, the
+voters behind the tally of `a` are distinct, at least `minimum`, each has `a` as latest counted
+IPv4 vote, unexpired at the clock reading of `majority()`; every rival's tally is below
+`thr` of their number. -/
+theorem cstep_move4_voters (thr : Nat → Nat) {minimum : Nat} {hist : List (Pong Nat)}
+    {L : List (Cast Nat)} {c : CSt} (h : CInv minimum hist L c) (e : Env) (he : e.Valid) (inp : Input)
+    (p : Pong Nat) (a : Nat) (hv : votePong c.svc e inp = some p) (hm : Moved4 thr c.abs p a) :
+    ∃ v', (cstep thr c e inp).1.votes = some v' ∧ v'.minimum = minimum ∧
+      (tallyVoters e.tMaj v'.v4 a).Nodup ∧
+      (tallyVoters e.tMaj v'.v4 a).length = countOf e.tMaj v'.v4 a ∧
+      minimum ≤ (tallyVoters e.tMaj v'.v4 a).length ∧
+      (∀ x, x ∈ tallyVoters e.tMaj v'.v4 a →
+        VotesFor ((stepCast c e inp).toList ++ L) false e.tMaj x (.v4 a)) ∧
+      (∀ b, b ≠ a → countOf e.tMaj v'.v4 b < thr (tallyVoters e.tMaj v'.v4 a).length) := by
+  obtain ⟨v', hv', hcm, _⟩ := hm.votes
+  obtain ⟨habs, _, _, _⟩ := cstep_pong thr c h.coupled e inp p hv
+  have hinv := cstep_inv thr h e he inp
+  have hvotes : (cstep thr c e inp).1.votes = some v' := by
+    have : (cstep thr c e inp).1.votes = (pongStep thr c.abs p).1.votes := congrArg IpVote.Svc.votes habs
+    rw [this]; exact hv'
+  have hok := hinv.ok v' hvotes
+  have hlok := hinv.lok v' hvotes
+  have ht : p.tMaj = e.tMaj := by
+    obtain ⟨_, _, _, _, _, _, _, hp⟩ := votePong_some hv
+    rw [hp]; rfl
+  rw [ht] at hcm
+  refine ⟨v', hvotes, hok.hmin, tallyVoters_nodup _ hok.k4 a, tallyVoters_length .., ?_, ?_, ?_⟩
+  · rw [tallyVoters_length, ← hok.hmin]; exact hcm.1
+  · exact tallyVoters_sound Sock.v4 false _ _ hlok.l4 e.tMaj a
+  · rw [tallyVoters_length]; exact hcm.2.2
+
+theorem cstep_move6_voters (thr : Nat → Nat) {minimum : Nat} {hist : List (Pong Nat)}
+    {L : List (Cast Nat)} {c : CSt} (h : CInv minimum hist L c) (e : Env) (he : e.Valid) (inp : Input)
+    (p : Pong Nat) (a : Nat) (hv : votePong c.svc e inp = some p) (hm : Moved6 thr c.abs p a) :
+    ∃ v', (cstep thr c e inp).1.votes = some v' ∧ v'.minimum = minimum ∧
+      (tallyVoters e.tMaj v'.v6 a).Nodup ∧
+      (tallyVoters e.tMaj v'.v6 a).length = countOf e.tMaj v'.v6 a ∧
+      minimum ≤ (tallyVoters e.tMaj v'.v6 a).length ∧
+      (∀ x, x ∈ tallyVoters e.tMaj v'.v6 a →
+        VotesFor ((stepCast c e inp).toList ++ L) true e.tMaj x (.v6 a)) ∧
+      (∀ b, b ≠ a → countOf e.tMaj v'.v6 b < thr (tallyVoters e.tMaj v'.v6 a).length) := by
+  obtain ⟨v', hv', hcm, _⟩ := hm.votes
+  obtain ⟨habs, _, _, _⟩ := cstep_pong thr c h.coupled e inp p hv
+  have hinv := cstep_inv thr h e he inp
+  have hvotes : (cstep thr c e inp).1.votes = some v' := by
+    have : (cstep thr c e inp).1.votes = (pongStep thr c.abs p).1.votes := congrArg IpVote.Svc.votes habs
+    rw [this]; exact hv'
+  have hok := hinv.ok v' hvotes
+  have hlok := hinv.lok v' hvotes
+  have ht : p.tMaj = e.tMaj := by
+    obtain ⟨_, _, _, _, _, _, _, hp⟩ := votePong_some hv
+    rw [hp]; rfl
+  rw [ht] at hcm
+  refine ⟨v', hvotes, hok.hmin, tallyVoters_nodup _ hok.k6 a, tallyVoters_length .., ?_, ?_, ?_⟩
+  · rw [tallyVoters_length, ← hok.hmin]; exact hcm.1
+  · exact tallyVoters_sound Sock.v6 true _ _ hlok.l6 e.tMaj a
+  · rw [tallyVoters_length]; exact hcm.2.2
+
+
+/-- Under monotone clocks the table the step leaves is complete: every voter whose latest counted
+vote is `a` and unexpired is behind the tally of `a`, and any distinct voters whose latest counted
+vote is `b` and unexpired are at most the tally of `b`. -/
+theorem cstep_move_exact (thr : Nat → Nat) {T : Nat} {L : List (Cast Nat)} {c : CSt} (hc : c.Coupled)
+    (hcomp : SLComp T L c.abs) (e : Env) (he : e.Valid) (h1 : T ≤ e.tClear) (h2 : e.tClear ≤ e.tIns)
+    (h3 : e.tIns ≤ e.tMaj) (inp : Input) (v' : IpVote.IpVote Nat)
+    (hv' : (cstep thr c e inp).1.votes = some v') :
+    (∀ a x, VotesFor ((stepCast c e inp).toList ++ L) false e.tMaj x (.v4 a) →
+      x ∈ tallyVoters e.tMaj v'.v4 a) ∧
+    (∀ b (ws : List Nat), ws.Nodup → (∀ x, x ∈ ws → VotesFor ((stepCast c e inp).toList ++ L) false e.tMaj x (.v4 b)) →
+      ws.length ≤ countOf e.tMaj v'.v4 b) ∧
+    (∀ a x, VotesFor ((stepCast c e inp).toList ++ L) true e.tMaj x (.v6 a) →
+      x ∈ tallyVoters e.tMaj v'.v6 a) ∧
+    (∀ b (ws : List Nat), ws.Nodup → (∀ x, x ∈ ws → VotesFor ((stepCast c e inp).toList ++ L) true e.tMaj x (.v6 b)) →
+      ws.length ≤ countOf e.tMaj v'.v6 b) := by
+  have hcmp := cstep_comp thr hc hcomp e he h1 h2 h3 inp v' hv'
+  have inj4 : ∀ a b : Nat, Sock.v4 a = Sock.v4 b → a = b := fun a b h => by cases h; rfl
+  have inj6 : ∀ a b : Nat, Sock.v6 a = Sock.v6 b → a = b := fun a b h => by cases h; rfl
+  refine ⟨?_, ?_, ?_, ?_⟩
+  · intro a x hx
+    exact tallyVoters_complete Sock.v4 inj4 false _ _ e.tMaj hcmp.c4 a x hx
+  · intro b ws hnd hws
+    exact voters_le_tally Sock.v4 inj4 false _ _ e.tMaj hcmp.c4 b ws hnd hws
+  · intro a x hx
+    exact tallyVoters_complete Sock.v6 inj6 true _ _ e.tMaj hcmp.c6 a x hx
+  · intro b ws hnd hws
+    exact voters_le_tally Sock.v6 inj6 true _ _ e.tMaj hcmp.c6 b ws hnd hws
+
+theorem sockOf_isV6 (a : Addr) : (sockOf a).isV6 = a.v6 := by
+  unfold sockOf; cases a.v6 <;> rfl
+
+theorem addrOf_sockOf (a : Addr) : addrOf (sockOf a) = a := by
+  obtain ⟨v6, sock⟩ := a
+  cases v6 <;> rfl
+
+/-- The eligibility of a PONG as the composed system evaluates it: the connectivity state admits
+the vote, ENR updates are on, and the voter is a connected outgoing table entry or
+`require_more_ip_votes` asks for votes of its family. -/
+def Eligible (c : CSt) (e : Env) (peer : Nat) (observed : Addr) : Prop :=
+  e.countable = true ∧ c.svc.cfg.enrUpdate = true ∧
+    (connOutOf c.svc peer || (IpVote.requireMore c.abs e.tClear observed.v6).2) = true
+
+theorem counted_eligible {c : CSt} (hc : c.Coupled) (e : Env) (peer : Nat) (observed : Addr)
+    (h : counted c.abs (pongOf e peer observed (connOutOf c.svc peer)) = true) :
+    Eligible c e peer observed := by
+  unfold counted at h
+  simp only [Bool.and_eq_true] at h
+  obtain ⟨⟨h1, h2⟩, h3⟩ := h
+  refine ⟨h1, ?_, ?_⟩
+  · rw [← hc]; exact h2
+  · have : (pongOf e peer observed (connOutOf c.svc peer)).sock.isV6 = observed.v6 := sockOf_isV6 observed
+    rw [this] at h3
+    exact h3
+
+/-- Every entry of the ledger of a history is the vote of a PONG response of that history which
+reached the vote path and was eligible in the state it met. -/
+theorem ledger_cast_eligible (thr : Nat → Nat) (steps : List (Env × Input)) :
+    ∀ (c : CSt), c.Coupled → ∀ cst, cst ∈ ledgerOf thr c steps →
+      ∃ pre e peer addr id enrSeq observed post,
+        steps = pre ++ (e, Input.response peer addr id (.pong enrSeq observed)) :: post ∧
+        cst.voter = peer ∧ cst.sock = sockOf observed ∧
+        reachesVote (crun thr c pre).1.svc peer addr id = true ∧
+        Eligible (crun thr c pre).1 e peer observed := by
+  induction steps with
+  | nil => intro c _ cst h; cases h
+  | cons x rest ih =>
+    intro c hc cst h
+    obtain ⟨e, inp⟩ := x
+    simp only [ledgerOf, List.mem_append] at h
+    rcases h with h | h
+    · obtain ⟨pre, e', peer, addr, id, enrSeq, observed, post, h1, h2, h3, h4, h5⟩ :=
+        ih _ (cstep_coupled thr hc e inp) cst h
+      refine ⟨(e, inp) :: pre, e', peer, addr, id, enrSeq, observed, post, by rw [h1]; rfl, h2, h3, ?_, ?_⟩
+      · rw [crun_cons]; exact h4
+      · rw [crun_cons]; exact h5
+    · unfold stepCast at h
+      cases hv : votePong c.svc e inp with
+      | none => rw [hv] at h; cases h
+      | some p =>
+        rw [hv] at h
+        simp only [Option.bind_some] at h
+        obtain ⟨peer, addr, id, enrSeq, observed, rfl, hr, rfl⟩ := votePong_some hv
+        unfold castOf at h
+        by_cases hcnt : counted c.abs (pongOf e peer observed (connOutOf c.svc peer)) = true
+        · rw [if_pos hcnt] at h
+          cases ht : tableBefore c.abs (pongOf e peer observed (connOutOf c.svc peer)) with
+          | none => rw [ht] at h; cases h
+          | some v =>
+            rw [ht] at h
+            simp only [Option.map_some, Option.toList, List.mem_singleton] at h
+            subst h
+            exact ⟨[], e, peer, addr, id, enrSeq, observed, rest, rfl, rfl, rfl, hr,
+              counted_eligible hc e peer observed hcnt⟩
+        · rw [if_neg hcnt] at h; cases h
 
 end Discv5.SvcVotes
